@@ -22,6 +22,7 @@ type SpecEnv struct {
 	inQuant int
 	guard string
 	results []SV
+	loopEntry *State // set while a loop invariant is evaluated: the state on entry to that loop (builtin loopentry(E))
 }
 
 type specErr struct{ msg string }
@@ -898,6 +899,9 @@ func (e *SpecEnv) evalCall(x *ECall) SV {
 			case "int", "uint64", "uint32", "uint16", "uint8", "byte", "int64", "int32", "uint", "mathint":
 				return SV{t: e.eval(x.Args[0]).t, typ: mathInt}
 			}
+			if v, ok := e.extBuiltin(id.Name, x); ok { // builtins added by extension files (ext_*.go)
+				return v
+			}
 			// spec function
 			if sf := e.lookupSpecFn(id.Name); sf != nil {
 				return e.applySpecFn(sf, x.Args)
@@ -1049,9 +1053,10 @@ func (e *SpecEnv) applySpecFn(sf *SpecFn, argExprs []Expr) SV {
 	if sf.Uninterp {
 		ret := n.resolveType(sf.Ret)
 		var sorts, ts []string
-		for _, a := range args {
-			sorts = append(sorts, e.fc.tc.sortOfSV(a))
-			ts = append(ts, a.t)
+		for i, a := range args {
+			ss, tt := e.uninterpArg(a, n.resolveType(sf.Params[i].Type)) // slices of leaf elements: (block content, offset, length), see ext_c34.go
+			sorts = append(sorts, ss...)
+			ts = append(ts, tt...)
 		}
 		name := "sf_" + mangle(sf.Pkg+"_"+sf.Name)
 		e.fc.eng.declareUF(e.fc, name, sorts, e.fc.tc.sortOf(ret))
